@@ -205,13 +205,15 @@ type lruItem struct {
 }
 
 func (dm *DMap) evictKeyWithLRU(e *env) error {
-	var idx = 1
+	var idx int
 	var items []lruItem
 
 	// Warning: fragment is already locked by DMap.Put. Be sure about that before editing this function.
 
 	// Pick random items from the distributed map and sort them by accessedAt.
 	e.fragment.storage.Range(func(hkey uint64, e storage.Entry) bool {
+		// Take lruSamples entries. The counter used to start at one, so one entry
+		// too few was sampled, and none at all with lruSamples = 1.
 		if idx >= dm.config.lruSamples {
 			return false
 		}
